@@ -25,6 +25,7 @@ struct Task {
   std::vector<Directive> dirs;
   size_t next_dir = 0;
   int prio = 0;
+  uintptr_t last_pc = 0;          // library pc of this task's most recent event (for the switch-pair reach measure)
   uint64_t run_since_switch = 0;
   std::function<void()>* body = nullptr;
 };
@@ -124,10 +125,19 @@ static void record_dir(int task, uint64_t at, int to) {
   else SR->overflow = 1;
 }
 
+static uintptr_t g_event_pc = 0;
 static void switch_to(int to, const char* reason) {
   Task* me = T[g_cur];
   Task* nx = T[to];
   SH->switches++;
+  me->last_pc = g_event_pc;
+  if (g_pairs) {
+    // reach measure: which (function pre-empted, function resumed) pairs did the schedules produce
+    const Sym* a = me->last_pc ? sym_lookup(me->last_pc) : nullptr;
+    const Sym* b = nx->last_pc ? sym_lookup(nx->last_pc) : nullptr;
+    uint64_t h = splitmix64((a ? a->addr : 1) * 1000003ULL + (b ? b->addr : 2));
+    g_pairs[(h >> 3) & 8191] |= (uint8_t)(1u << (h & 7));
+  }
   logf("S t%d@%llu -> t%d %s", me->id, (unsigned long long)me->ctx.events, to, reason);
   g_cur = to;
   nx->run_since_switch = 0;
@@ -339,6 +349,7 @@ static inline bool event_tick(TaskCtx* t, uintptr_t pc) {
 void on_edge(uintptr_t pc) {
   TaskCtx* t = t_task;
   if (!t || !SH) return;
+  g_event_pc = pc;
   event_tick(t, pc);
   if (g_threads_mode) maybe_yield(false);
 }
@@ -346,6 +357,7 @@ void on_edge(uintptr_t pc) {
 void on_mem_access(uintptr_t a, size_t n, bool write, uintptr_t pc) {
   TaskCtx* t = t_task;
   if (!t || !SH) return;
+  g_event_pc = pc;
   event_tick(t, pc);
   if (a >= t->stack_lo && a < t->stack_hi) return;
   if (write && g_monitor_tables && n && !g_table_store_seen && (in_table_set(a) || in_table_set(a + n - 1))) {
